@@ -69,6 +69,7 @@ type FileCase struct {
 	Many                       int    `json:"many,omitempty"`    // that many further records with a one-octet payload (a file with thousands of records)
 	Prev                       string `json:"prev,omitempty"`    // what happened to the file name before: "" nothing | longer | shorter (a file of that size is stored under it) | fail (an Encoding into a missing directory was attempted just before)
 	ManyLen                    int    `json:"manyLen,omitempty"` // payload length of those further records (0: one octet; -1: all different - record i has (i mod 600)+1 octets and a version / TS number that changes every 600 records, so that thousands of record headers are pairwise different - followed by one last record with the header of the first)
+	Dirty                      bool   `json:"dirty,omitempty"`   // C14: the file is decoded into a variable that was decoded into before (a read of a file with extension octets that failed part-way, before any record)
 	Alias                      bool   `json:"alias,omitempty"`   // routeing filter and private extension are windows on one array (the filter has spare capacity that reaches into the extension)
 }
 
@@ -149,7 +150,8 @@ func genFile(t *rapid.T) FileCase {
 	if rapid.IntRange(0, h.Scale(60, 25)).Draw(t, "thousands") == 0 {
 		c.Many = rapid.SampledFrom([]int{4095, 4096, 4097, 5000, 10000}).Draw(t, "many")
 	}
-	c.Prev = rapid.SampledFrom([]string{"", "", "", "longer", "shorter", "fail"}).Draw(t, "prev")
+	c.Prev = rapid.SampledFrom([]string{"", "", "", "longer", "shorter", "fail", "blocked"}).Draw(t, "prev")
+	c.Dirty = rapid.IntRange(0, 3).Draw(t, "dirty") == 0
 	c.Alias = rapid.IntRange(0, 3).Draw(t, "alias") == 0
 	return c
 }
@@ -338,6 +340,16 @@ func (c FileCase) before(name string) {
 		l.Alias, l.Prev, l.Many, l.ManyLen = false, "", 0, 0
 		f := l.build()
 		h.Safely(func() { f.Encoding(filepath.Join(h.WorkDir(), "no-such-directory", "x.bin")) })
+	case "blocked":
+		// the name was taken by a directory when a longer file was to be written under it (that attempt failed;
+		// whatever it left beside the name is part of the history); the directory is gone now
+		l := c
+		l.Alias, l.Prev, l.Many, l.ManyLen = false, "", 0, 0
+		l.Recs = append(append([]Rec{}, c.Recs...), Rec{Rel: 3, Fmt: 1, Payload: Blob{N: 5000, Seed: 77}}, Rec{Rel: 7, Ext: 9, Fmt: 2, Payload: Blob{N: 100, Seed: 78}})
+		f := l.build()
+		_ = os.Mkdir(name, 0o755)
+		h.Safely(func() { f.Encoding(name) })
+		_ = os.Remove(name)
 	}
 }
 
@@ -398,6 +410,24 @@ func judgeC14(c FileCase) *h.Verdict {
 	}
 	in = c.expected()
 	var out cdrFile.CDRFile
+	if c.Dirty {
+		// the variable has been decoded into before: a file with both release identifier extensions, cut short right behind
+		// its header (a read that fails part-way, before any record is stored)
+		d := FileCase{HiRel: 7, LoRel: 7, HiExt: 0x5a, LoExt: 0xa5, Seq: 9, RF: Blob{Lit: []byte("rf")}, PE: Blob{Lit: []byte("pe")},
+			Recs: []Rec{{Rel: 7, Ext: 3, Fmt: 1, Payload: Blob{N: 40, Seed: 5}}, {Rel: 2, Fmt: 2, Payload: Blob{N: 9, Seed: 6}}}}
+		dn := tmpName()
+		df := d.build()
+		if p, _, _ := h.Safely(func() { df.Encoding(dn) }); !p {
+			// (only the failed read: what Decoding does with the records of a variable that already holds some is
+			// not something the property speaks about)
+			if b, err := os.ReadFile(dn); err == nil && len(b) > 70 {
+				_ = os.WriteFile(dn, b[:d.headerLen()], 0o600)
+				h.Safely(func() { out.Decoding(dn) })
+			}
+		}
+		os.Remove(dn)
+		v.Label("decoded-into-a-variable-used-before")
+	}
 	if p, val, st := h.Safely(func() { out.Decoding(name) }); p {
 		return v.Failf("decode-panic/"+h.PanicClass(val)+c.sigFlags(), "Decoding panicked: %v\n%s", val, st)
 	}
